@@ -242,6 +242,29 @@ func (t *Task) Delete(pg wpg.Conn, n uint64) error {
 	if err != nil {
 		return fmt.Errorf("deleting block from task table: %w", err)
 	}
+	// Rows are written in batches that end at a recorded position.
+	// Everything above the newest remaining position belongs
+	// to the batch (or batches) just removed.
+	var prev uint64
+	const pq = `
+		select num
+		from shovel.task_updates
+		where src_name = $1
+		and ig_name = $2
+		order by num desc
+		limit 1
+	`
+	err = pg.QueryRow(t.ctx, pq, t.srcName, t.destConfig.Name).Scan(&prev)
+	switch {
+	case errors.Is(err, pgx.ErrNoRows):
+		if t.start > 0 {
+			n = min(n, t.start)
+		}
+	case err != nil:
+		return fmt.Errorf("querying previous task update: %w", err)
+	default:
+		n = min(n, prev+1)
+	}
 	err = t.dests[0].Delete(t.ctx, pg, n)
 	if err != nil {
 		return fmt.Errorf("deleting block: %w", err)
